@@ -248,7 +248,7 @@ def oracle(sc, ctx, program):
     def factory():
         return bpm.run(sc, program).hugr
 
-    for hist, h in mutate.histories(factory, _DEPTH, "quick", kinds=_KINDS if _TIER == "quick" else None):
+    for hist, h in mutate.histories(factory, _DEPTH, "quick", kinds=_KINDS if _TIER == "quick" else None, pre=lambda g: mutate.observe(g, render=True)):
         tag = "+".join(m[0] for m in hist) or "built"
         for sig, msg in check_hugr(h, tag, few_configs=bool(hist) and _TIER == "quick"):
             out.append((sig, f"{msg} | history={hist} | program={program}"))
